@@ -60,6 +60,20 @@ CHECKS.update({
          "Generated-input search over all defined modulation codes, NOPE, 0..8 batched sub-PDUs; encoder vs layout octet for octet, round trip, reserved bits, version nibble; every valid v0/v1 datagram of data_msg (legacy on/off) must be accepted with identical fields.",
          "Reserved modulation codes (0b0111, 0b111x) are not asserted; v2 layout reference is a transcription of the TRXDv2 field order.", "3/C17"),
 })
+CHECKS.update({
+ "C06": ("exploration", "Hypothesis operation histories against an ASan/UBSan driver around the unmodified sercomm.c (host and target builds) with a queue/priority model and an independent HDLC de-framer; over-long frame and noise injection",
+         "Model-based generated-input search: the pulled octet stream is parsed by refs/ref_hdlc (wire invariants), matched against per-DLCI FIFOs and the priority rule, and deliveries are aligned with the frames fed to the receiver allowing at most the one frame after an over-long frame to be missing; sanitizers make memory corruption visible.",
+         "x86-64 clang build, IRQ masking no-op; noise only while the receiver is in sync; DLCI 126/128 never registered.", "3/C06"),
+ "C08": ("exploration", "Hypothesis operation histories against an ASan/UBSan driver around the unmodified tdma_sched.c compared step by step with a 25x8 ring model",
+         "Model-based generated-input search over schedule / schedule_set / advance / execute / reset sequences from any ring position; executed callbacks (multiset, parameters, priority order), return codes and overflow behaviour compared after every operation.",
+         "Callbacks succeed and do not re-enter; items of an overflowed set / of the current bucket at reset get may-or-may-not latitude.", "3/C08"),
+ "C11": ("exploration", "complete enumeration of all tasks x all frames of a 51x26x8 cycle (firmware, recording stub) and all (combination, timeslot) lookups x table rows (trxcon, ASan) compared through a fixed task<->channel correspondence table",
+         "Exhaustive over the finite domain: every firmware trigger and every trxcon table row is visited; block starts / per-frame ownership compared per logical channel and direction; burst-id cyclicity, lchan_mask containment, slotmask/config validity and out-of-table reads (ASan) checked for every layout.",
+         "The correspondence table and the one-frame DSP latency are harness knowledge; x86-64 clang build; newer libosmocore enumerators from the shim.", "3/C11"),
+ "C20": ("exploration", "Hypothesis-generated cell allocations and bitmaps against the function sliced verbatim from sysinfo.c in an ASan/UBSan driver with exact-size heap buffers; reference decoder from TS 44.018 10.5.2.21",
+         "Generated-input search over CA subsets (size 0..64, with/without ARFCN 0), bitmap lengths 0..9 and biased contents; result list, length, return code, HOPP flags and untouched outputs compared with refs/ref_ma; any out-of-bounds access is a sanitizer report.",
+         "Only gsm48_decode_mobile_alloc() is compiled (sysinfo.c needs libosmo-gprs headers); vla-bound check off.", "3/C20"),
+})
 NOT_YET = {}
 
 def main():
